@@ -3,6 +3,8 @@ package props
 import (
 	"bytes"
 	"context"
+	"encoding/base64"
+	"encoding/json"
 	"errors"
 	"fmt"
 	"slices"
@@ -271,6 +273,8 @@ func c15writes(env *core.Env, faulty bool) {
 	mems := [2]*ocimem.Registry{ocimem.NewWithConfig(&ocimem.Config{ImmutableTags: immutable}), ocimem.NewWithConfig(&ocimem.Config{ImmutableTags: immutable})}
 	trackers := [2]*reg.Tracker{reg.NewTracker(), reg.NewTracker()}
 	failed := false // a member write has been made to fail: the members may differ from now on
+	pendingBad := false
+	badHandle := map[int]bool{}
 	var plan *reg.FaultPlan
 	if faulty {
 		rate := c.Range("fault.rate", 3, 10)
@@ -288,8 +292,10 @@ func c15writes(env *core.Env, faulty bool) {
 			},
 			WriterFaults: func(call *reg.Call) (bool, bool) {
 				if c.Bool("writerfault?", 1, rate) {
-					failed = true
-					env.Fault("member-writer-fails")
+					// member 1 hands out a writer whose Write and/or Commit will fail; the
+					// failure happens (and counts) when the writer is used
+					pendingBad = true
+					env.Fault("member-writer-will-fail")
 					return c.Bool("w", 1, 2), true
 				}
 				return false, false
@@ -302,7 +308,8 @@ func c15writes(env *core.Env, faulty bool) {
 	if c.Bool("concurrent", 1, 2) {
 		pol = ociunify.ReadConcurrent
 	}
-	u := ociunify.New(m0, m1, &ociunify.Options{ReadPolicy: pol})
+	un := ociunify.New(m0, m1, &ociunify.Options{ReadPolicy: pol})
+	u := un
 	m := reg.NewModel(immutable)
 	m.StrictCodes = false
 	cfg := reg.GenConfig{Repos: pickSome(c, "repos", repoNames, 1, 2), Tags: pickSome(c, "tags", tagNames, 1, 2), MaxBlob: 60, Weights: reg.DefaultWeights(), Uploads: true, BadPush: true, HTTPSafe: true}
@@ -317,7 +324,15 @@ func c15writes(env *core.Env, faulty bool) {
 	for i := 0; i < n; i++ {
 		op := g.Next()
 		failedBefore := failed
+		pendingBad = false
 		res := reg.Exec(ctx, u, op, h)
+		if pendingBad && (op.Kind == reg.UpStart || op.Kind == reg.UpResume) {
+			badHandle[op.Handle] = true
+		}
+		if (op.Kind == reg.UpWrite || op.Kind == reg.UpCommit) && badHandle[op.Handle] && res.Err != nil {
+			failed = true
+			env.Fault("member-writer-fails")
+		}
 		env.Op(op.Kind.String() + ":" + reg.CodeOf(res.Err))
 		env.Logf("%d %s -> %s", i, op, res)
 		env.Sample("%s -> %s", op, res)
@@ -338,6 +353,29 @@ func c15writes(env *core.Env, faulty bool) {
 				env.Failf("C15/writes/"+op.Kind.String()+"/members-diverged", "after %s the two members are no longer observably equal: %s", op, d)
 			}
 			continue
+		}
+		// a member lost a chunk of an upload: a resume through the unifier must not vouch
+		// for a session whose members disagree on what they have received
+		if !failedBefore && op.Kind == reg.UpWrite && res.Err != nil {
+			if u := m.Uploads[op.Handle]; u != nil {
+				if w2, err := u2resume(ctx, u.Repo, h.ID[op.Handle], un); err == nil {
+					ids := unifyMemberIDs(h.ID[op.Handle])
+					if len(ids) == 2 {
+						var sizes [2]int64
+						for mi := 0; mi < 2; mi++ {
+							if mw, err := mems[mi].PushBlobChunkedResume(ctx, u.Repo, ids[mi], -1, 0); err == nil {
+								sizes[mi] = mw.Size()
+							}
+						}
+						if sizes[0] != sizes[1] {
+							env.Failf("C15/writes/UpResume/members-disagree", "after member 1 lost a chunk, PushBlobChunkedResume(offset -1) through the unifier returned a writer (size %d) although member 0 holds %d bytes and member 1 holds %d", w2.Size(), sizes[0], sizes[1])
+						}
+					}
+					env.Probe("c15:resume-after-one-sided-loss-accepted")
+				} else {
+					env.Probe("c15:resume-after-one-sided-loss-refused")
+				}
+			}
 		}
 		// a member write failed at some point: success is reported only if both succeeded
 		if !failedBefore && res.Err == nil && op.Kind != reg.UpWrite && op.Kind != reg.UpStart && op.Kind != reg.UpResume && op.Kind != reg.UpClose {
@@ -444,4 +482,22 @@ func membersDiffer(ctx context.Context, mems [2]*ocimem.Registry, m *reg.Model) 
 		return fmt.Sprintf("member 0 lists repositories %v, member 1 lists %v", r0, r1)
 	}
 	return ""
+}
+
+
+func u2resume(ctx context.Context, repo, id string, u ociregistry.Interface) (ociregistry.BlobWriter, error) {
+	return u.PushBlobChunkedResume(ctx, repo, id, -1, 0)
+}
+
+// unifyMemberIDs decodes ociunify's composite upload id.
+func unifyMemberIDs(id string) []string {
+	b, err := base64.RawURLEncoding.DecodeString(id)
+	if err != nil {
+		return nil
+	}
+	var ids []string
+	if json.Unmarshal(b, &ids) != nil {
+		return nil
+	}
+	return ids
 }
